@@ -502,11 +502,13 @@ func (w *world) report(backend string, hist []int, d hx.Dev) {
 
 func Run(o *core.Options) int {
 	r := core.NewReport(o, "model_checking",
-		"BFS over interleaved histories on two stores A, B of one Server (same store name, same first model id and text, same object/user ids; check query cache, both iterator caches, shared iterators and cache controller on). Events per store: write/delete tuple doc:1#viewer@user:a, write a second model (can_view loses a branch), write assertions, delete store, Check, ListObjects, ListUsers, Expand, Read, ReadChanges (queries carry no model id). Per store: mutators before observers (a store's own cache staleness is allowed behaviour and timing dependent; it is not what is examined), at most P events per store and D events in total; requests without effect are not enumerated (write of a present tuple, delete of an absent one, mutators on a deleted store, a second WriteAuthorizationModel/WriteAssertions on the same store). successor = replay of the shortest history on a fresh Server + one event; then both stores are fully observed. Oracle: for each store, the outputs of its events and its final observation equal those of the same events executed alone on a fresh server; a recording datastore checks the store id of every storage call against the store of the request; GetStore/ListStores after DeleteStore. States deduplicated by (per store: final observation, number of events, phase, cache-filling requests made per model count). Mirror images (first event on B) are pruned. non-trivial = both stores have events and their final observations differ; distinct by (backend, history)")
+		"BFS over interleaved histories on two stores A, B of one Server (same store name, same first model id and text, same object/user ids; check query cache, both iterator caches, shared iterators and cache controller on). Events per store: write/delete tuple doc:1#viewer@user:a, write a second model (can_view loses a branch), write assertions, delete store, Check, ListObjects, ListUsers, Expand, Read, ReadChanges (queries carry no model id). Per store: mutators before observers (a store's own cache staleness is allowed behaviour and timing dependent; it is not what is examined), at most P events per store and D events in total; requests without effect are not enumerated (write of a present tuple, delete of an absent one, mutators on a deleted store, a second WriteAuthorizationModel/WriteAssertions on the same store). successor = replay of the shortest history on a fresh Server + one event; then both stores are fully observed. Oracle: for each store, the outputs of its events and its final observation equal those of the same events executed alone on a fresh server; a recording datastore checks the store id of every storage call against the store of the request; GetStore/ListStores after DeleteStore. States deduplicated by (per store: final observation, number of events, phase, cache-filling requests made per model count). Mirror images (first event on B) are pruned. non-trivial = both stores have events and their final observations differ; distinct by (backend, history). PART 2, cross-store references (refs.go; memory and SQLite in both tiers): one Server (same caches), stores A and B with different tuples; every model identifier of the world - S (caller-chosen id written into BOTH stores through storage.WriteAuthorizationModel with a DIFFERENT text per store), GA / GB (ids the Server generated for a model written to A / B through the API), N (well-formed, never written), none (latest) - is used on BOTH stores in every model-addressed request: ReadAuthorizationModel, Check, BatchCheck, ListObjects, ListUsers, Expand, ReadAssertions, WriteAssertions, Write at the Server API, and ReadAuthorizationModel, ReadAssertions, FindLatestAuthorizationModel, ReadAuthorizationModels, WriteAssertions at the datastore interface. A case = (text assignment of 4 texts with different can_view, whose rows are inserted first, which store is asked first, prefix of <= L requests from the whole alphabet incl. the mutators) on a fresh Server, followed by a sweep of every observer x every identifier on both stores and of the datastore interface; so every cache is filled once by the owner first and once by the foreign reference first. Oracle: a reference of two independent stores in plain Go (maps; can_view of the four texts written by hand): an id that names no model of the store of the request must be refused, with exactly the refusal given to the never-written id N (ids masked), and must leave both stores unchanged; an id the store holds must be answered from that store's own text, tuples and assertions; the seam checks the store id of every storage call. Signatures model-reference/<layer>/<request>/<identifier kind>/<class>; a signature is decided by 6 executions of the first case showing it. non-trivial = the two stores answered the shared id differently and foreign ids were presented; distinct by case")
 	r.Assume("memory: fresh datastore per replay; SQLite: fresh Server and two fresh stores (replay-unique name) per replay on a per-worker migrated database, fsync disabled",
 		"the first model is installed through the datastore interface so that both stores hold the same model id; every event goes through the Server API",
 		"background storage calls (cache controller) carry no request mark: they are only required to name one of the two stores",
-		"a deviation is a verdict only if it shows in all 6 executions of the same history; otherwise it is listed under anomalies")
+		"a deviation is a verdict only if it shows in all 6 executions of the same history; otherwise it is listed under anomalies",
+		"cross-store references: S and N are fresh per replay (pooled SQLite databases are reused) with an old timestamp, so that the generated ids are the latest models; the shared id can only be produced through the datastore interface (the Server generates unique ids), generated ids come from the Server API",
+		"cross-store references, bounds: quick L=1 (memory: 4 insertion/sweep orders; SQLite: the 2 orders that exchange the roles of the stores); thorough adds every text in every role, equal texts under the shared id, L=2 on memory and L=2 behind a mutating first request on SQLite")
 	w := &world{r: r, m1: parser.MustTransformDSLToProto(m1DSL), m2: parser.MustTransformDSLToProto(m2DSL)}
 	w.refModels = refModels()
 	w.pool = hx.NewPool("c16")
@@ -603,7 +605,7 @@ func Run(o *core.Options) int {
 				return
 			}
 			nnew++
-			if nsamp < 3 && nnew%131 == 7 {
+			if nsamp < 2 && nnew%131 == 7 {
 				nsamp++
 				r.Sample(map[string]any{"backend": c.backend, "history": names(n.Hist), "state": n.Key})
 			}
